@@ -119,7 +119,7 @@ def m1_lemmas(atoms):
     return lemmas, certs
 
 
-def theory_check(true_atoms, false_atoms, budget=6.0):
+def theory_check(true_atoms, false_atoms, budget=6.0, hubs=None):
     """Given a propositional assignment of the ring atoms (T: `= 0`, F: `!= 0`), decide whether it is
     consistent with the theory of fields: by the weak Nullstellensatz it is inconsistent iff
     1 is in the ideal <T, 1 - y_j*f_j (f_j in F)>.  A certificate 1 = sum q_i*h_i + sum r_j*(1 - y_j*f_j)
@@ -198,11 +198,92 @@ def theory_check(true_atoms, false_atoms, budget=6.0):
                               "certificate": "c*goal = sum q_i*zero_i, %d cofactor terms" % sum(len(q.t) for q in qs)})
         if lemmas:
             return lemmas, certs
+    import os as _os, time as _tt
+    _dbg = _os.environ.get("GOVC_DEBUG_RING")
+    _t1 = _tt.time()
     if Tall and attempt([]):
         return lemmas, certs
+    if _dbg:
+        print("   stage 1-in-T: %.1fs" % (_tt.time() - _t1))
+    # products of two false atoms: f*g in <T> gives  T' => f = 0 or g = 0  (M1: no zero divisors).  One tracked
+    # basis per relevant generator set, every product reduced against it.
+    if len(F) > 1:
+        import time as _t
+        t0 = _t.time()
+        occ = {}
+        for t in Tall:
+            for v in t.atoms():
+                occ[v] = occ.get(v, 0) + 1
+        hubs = set(hubs) if hubs else {v for v, n in occ.items() if n > 3}
+
+        def closure(vs):
+            vs = set(vs)
+            chosen = []
+            left = list(Tall)
+            changed = True
+            while changed:
+                changed = False
+                for t in list(left):
+                    a = t.atoms()
+                    if a <= vs or ((a & vs) - hubs):
+                        chosen.append(t)
+                        left.remove(t)
+                        if not a <= vs:
+                            vs |= a
+                        changed = True
+            return [t for t in Tall if t in chosen]
+        pairs = sorted(((f, g) for i, f in enumerate(F) for g in F[i + 1:]), key=lambda fg: len(fg[0].t) + len(fg[1].t))
+
+        def emit_pairs(T, fgs):
+            res = cofactors_multi([f * g for f, g in fgs], T)
+            for (f, g), r in zip(fgs, res):
+                if r is None:
+                    continue
+                c, qs = r
+                usedT = [h for h, q in zip(T, qs) if q.t]
+                lemmas.append(mk_implies(mk_and(*[req(h) for h in usedT]) if usedT else True, mk_or(req(f), req(g))))
+                certs.append({"kind": "K2+M1", "c": c, "zero": [h.key() for h in usedT], "product": [f.key(), g.key()],
+                              "certificate": "c*f*g = sum q_i*zero_i, %d cofactor terms" % sum(len(q.t) for q in qs)})
+        # first one basis for everything connected to the compound false atoms, all products reduced against it
+        big = set()
+        for f in F:
+            if len(f.t) > 1:
+                big |= f.atoms()
+        Tbig = closure(big) if big else []
+        if Tbig:
+            emit_pairs(Tbig, [(f, g) for f, g in pairs if len(f.t) > 1 and len(g.t) > 1])
+            if _dbg:
+                print("   stage pairs/one basis (%d generators): %.1fs, %d lemmas" % (len(Tbig), _t.time() - t0, len(lemmas)))
+            if lemmas:
+                return lemmas, certs
+        groups = {}
+        for f, g in pairs:
+            T = closure(f.atoms() | g.atoms())
+            if len(T) < 1:
+                continue
+            groups.setdefault(tuple(h.key() for h in T), (T, []))[1].append((f, g))
+        for T, fgs in sorted(groups.values(), key=lambda x: len(x[0])):
+            if _t.time() - t0 > 2 * budget:
+                break
+            res = cofactors_multi([f * g for f, g in fgs], T)
+            for (f, g), r in zip(fgs, res):
+                if r is None:
+                    continue
+                c, qs = r
+                usedT = [h for h, q in zip(T, qs) if q.t]
+                lemmas.append(mk_implies(mk_and(*[req(h) for h in usedT]) if usedT else True, mk_or(req(f), req(g))))
+                certs.append({"kind": "K2+M1", "c": c, "zero": [h.key() for h in usedT], "product": [f.key(), g.key()],
+                              "certificate": "c*f*g = sum q_i*zero_i, %d cofactor terms" % sum(len(q.t) for q in qs)})
+            if lemmas:
+                return lemmas, certs
+    _t1 = _tt.time()
     for f in F:
+        if _tt.time() - _t1 > 5 * budget:
+            break
         if attempt([f]):
             return lemmas, certs
+    if _dbg:
+        print("   stage radical: %.1fs" % (_tt.time() - _t1))
     if len(F) > 1 and attempt(F[:6]):
         return lemmas, certs
     return lemmas, certs
